@@ -2,7 +2,8 @@ SPEC = {
     "id": "C18",
     "level": "other",
     "sidecars": ["trie_dict", "hostname_trie_set", "pred_homepage", "pred_html", "pred_special", "pred_short", "pred_resolve", "twitter", "telegram", "instagram", "facebook", "get_hostname"],
-    "functions": ["ural/is_homepage.py:is_homepage", "ural/could_be_html.py:could_be_html", "ural/has_special_host.py:is_special_host",
+    "function_sidecars": {'ural/utils.py:safe_urlsplit': ["utils"]},
+    "functions": ['ural/utils.py:safe_urlsplit', "ural/is_homepage.py:is_homepage", "ural/could_be_html.py:could_be_html", "ural/has_special_host.py:is_special_host",
                   "ural/has_special_host.py:has_special_host", "ural/is_shortened_url.py:is_shortened_url", "ural/should_resolve.py:should_resolve",
                   "ural/twitter.py:is_twitter_url", "ural/telegram.py:is_telegram_url", "ural/instagram.py:is_instagram_url", "ural/facebook.py:is_facebook_url",
                   "ural/get_hostname.py:get_hostname", "ural/classes/hostname_trie_set.py:HostnameTrieSet.match"],
